@@ -74,7 +74,7 @@ def units(tier):
         for decl in _subsets(ids):
             for n in ((3, 4) if (not q or shape in ("prog",)) else (3,)):
                 k = len(us)
-                us.append(dict(h="scopes", shape=shape, decl=decl, n=n, std="f2008", gap=("", " ", "  ")[k % 3], cost=len(decl) + n))
+                us.append(dict(h="scopes", shape=shape, decl=decl, n=n, std="f2008", gap=("", " ", "  ")[k % 3], pre=(None, "dup", "dupmod")[k % 3], cost=len(decl) + n))
     return us
 
 
@@ -137,6 +137,17 @@ def scopes(ctx):
         ctx.check(not k0, "a name that cannot be an intrinsic is classified as intrinsic")
     # ---- the program under test
     C.reset()
+    if p.get("pre"):
+        # an earlier parse with the same parser that is aborted inside a scoping unit by a
+        # SymbolTableError (duplicate declaration with checks enabled) must leave nothing behind
+        bad = ("subroutine zz1()\n  integer :: q\n  integer :: q\nend subroutine zz1\n" if p["pre"] == "dup" else
+               "module zz2\ncontains\nsubroutine zz3()\n  block\n    real :: w\n    real :: w\n  end block\nend subroutine zz3\nend module zz2\n")
+        SYMBOL_TABLES.enable_checks(True)
+        rb = C.outcome(lambda: C.parse(bad, p["std"], True))
+        SYMBOL_TABLES.enable_checks(False)
+        ctx.observe("pre", rb[0])
+        ctx.check(rb[0] != "ok", "duplicate declaration accepted although symbol-table checks are enabled")
+        ctx.check(SYMBOL_TABLES.current_scope is None, "an aborted parse leaves a scoping region open")
     U = {}
     for sid, par in sc:
         if sid != "b":
